@@ -10,6 +10,7 @@ from axolotl.identitykey import IdentityKey
 from axolotl.state.sessionrecord import SessionRecord
 from axolotl.util.keyhelper import KeyHelper
 
+TOMB = 9          # model value of a retired one-time prekey's row (record NULL)
 TABLES = ["sessions", "identities", "prekeys", "signed_prekeys", "sender_keys"]
 GROUPS = ["111-222@g.us", "333-444@g.us"]
 SENDERS = ["4911", "4922", "4933"]
@@ -70,6 +71,8 @@ def dump(dbpath, pool):
     out = []
     try:
         def val(table, blob):
+            if blob is None:
+                return TOMB
             return pool.blob2val.get((table, bytes(blob)), "?")
         rows = conn.execute("SELECT recipient_id, record FROM sessions").fetchall()
         out.append(sorted((int(k), val("sessions", b), 0) for k, b in rows))
@@ -104,7 +107,7 @@ OPS = {
     2: ("deleteAllSessions", "remove", 0),
     3: ("saveIdentity", "replace", 1),
     4: ("storePreKey", "insertNew", 2),
-    5: ("removePreKey", "remove", 2),
+    5: ("removePreKey", "retire", 2),      # the row stays as a tombstone (record NULL): its id is never handed out again
     6: ("setAsSent", "markSent", 2),
     7: ("storeSignedPreKey", "insertNew", 3),
     8: ("removeSignedPreKey", "remove", 3),
